@@ -23,6 +23,9 @@ def _make_camelcase(name: str) -> str:
 
 
 def rename_class(name: str, *, private: bool) -> str:
+    if not name.isascii():
+        return name  # Word splitting only understands ASCII letters
+
     name = re.sub("_{1,}", "_", name)
     if len(name) == 0:
         raise ValueError("Cannot rename empty name")
@@ -43,6 +46,9 @@ def rename_variable(variable: str, *, static: bool, private: bool) -> str:
 
     if variable.startswith("__") and variable.endswith("__"):
         return variable
+
+    if not variable.isascii():
+        return variable  # Word splitting only understands ASCII letters
 
     renamed_variable = _make_snakecase(variable, uppercase=static)
 
